@@ -36,6 +36,7 @@ THEOREMS = [
     'CpProofs.C12.C12_rfc2047_roundtrip',
     'CpProofs.C12.C12_status_cookie_clean',
     'CpProofs.C12.C12_cookie_no_injection',
+    'CpProofs.C12.C12_response_clean',
     'CpProofs.C12.C12_status_cookie_clean_old_false',
     'CpProofs.C12.cookieLinesOld_injects',
     'CpProofs.C12.C12_status_old_partial',
@@ -44,6 +45,7 @@ THEOREMS = [
     'CpProofs.C12.htmlUnescape_htmlEscape',
     'CpProofs.C12.C12_error_page_escaped',
     'CpProofs.C12.errorPage_isSome',
+    'CpProofs.C12.C12_error_page_failed_escaped',
     'CpProofs.C12.quoteattr_delimited',
     'CpProofs.C12.C12_redirect_page_escaped',
     'CpProofs.C12.C12_log_single_line_escaped',
@@ -620,10 +622,14 @@ def oracle_redirect_page(body, urls):
     return bad
 
 
-def oracle_log(lines, atoms, n_format_quotes=6):
+def oracle_log(lines, atoms, n_format_quotes=None):
     """Every access-log entry is one line of printable ASCII; double quotes born from request data are
-    escaped.  atoms: the texts that were logged (None = unknown)."""
+    escaped.  atoms: the texts that were logged (None = unknown).  The quotes the FORMAT writes itself
+    (field delimiters) are not request data: their number is read from the configured format."""
     bad = []
+    if n_format_quotes is None:
+        from cherrypy import _cplogging
+        n_format_quotes = _cplogging.LogManager.access_log_format.count('"')
     for line in lines:
         if '\n' in line or '\r' in line:
             bad.append(('access-log entry spans lines: %r' % line, 'log_entry_multi_line'))
@@ -767,6 +773,11 @@ def check_wsgi(ctx, case, obs, model_q):
     if page_kind == 'error' and case['sink'] != 'errmsg_tb' and msg is not None:
         model_q.append(('errpage %s %s - %s' % (T(obs['src_status']), T(msg), T(obs['version'])),
                         'ok ' + H(obs['body'].rstrip(b' ')), 'error page bytes', cj))
+    if page_kind == 'error_custom_failed':
+        import traceback
+        e = traceback.format_exception_only(ValueError, ValueError(case['payload']))[-1]
+        model_q.append(('errpagefail %s %s - %s %s' % (T(obs['src_status']), T('M&m'), T(obs['version']), T(e)),
+                        'ok ' + H(obs['body'].rstrip(b' ')), 'failed-custom-error-page bytes', cj))
     if page_kind == 'redirect':
         model_q.append(('redir %d %s' % (obs['redirect_status'], ' '.join(T(u) for u in obs['redirect_urls'])),
                         'ok ' + H(obs['body']), 'redirect page bytes', cj))
@@ -1255,11 +1266,21 @@ def replay(ctx, case):
     print('case   :', json.dumps(case, sort_keys=True)[:1500])
     if case.get('kind') == 'unit':
         q, bad = run_unit(case['unit'], case['payload'], case.get('aux'))
+        def show(x):
+            f = x.split(' ')
+            if f[0] == 'ok' and len(f) > 1 and all(c in '0123456789abcdef-' for c in ''.join(f[1:])):
+                return 'ok ' + ' '.join(repr(unH(h)) for h in f[1:])
+            if f[0] == 'ok' and len(f) == 2:
+                try:
+                    return 'ok ' + repr(unT(f[1]))
+                except ValueError:
+                    return x
+            return x
         for line, expected, what in q:
-            print('impl   : %s = %s' % (what, expected[:600]))
+            print('impl   : %s = %s' % (what, show(expected)[:1500]))
             m = ctx.model([line]) if modelable(case['payload']) else None
             if m:
-                print('model  : %s = %s' % (what, m[0][:600]))
+                print('model  : %s = %s' % (what, show(m[0])[:1500]))
     elif case.get('kind') == 'wsgi':
         obs = run_wsgi(case)
         print('impl   : status %r' % obs['status'])
